@@ -2,8 +2,9 @@ package rules
 
 import (
 	"fmt"
-	"reflect"
+	"go/token"
 	"go/types"
+	"reflect"
 	"strings"
 
 	"golang.org/x/tools/go/ssa"
@@ -247,7 +248,7 @@ func c20R9(c *Ctx) {
 					}
 				}
 			}
-			c.R.Ob(rule, "Read:recvBuffer-backed-by-own-frame", (isMake || selfSlice) && pooled == "", c.Pos(st), fname(f), pooled+" "+ "the bytes kept for the next Read live in "+shorten(exprOf(root))+": if that buffer is recycled another connection's frame overwrites them")
+			c.R.Ob(rule, "Read:recvBuffer-backed-by-own-frame", (isMake || selfSlice) && pooled == "", c.Pos(st), fname(f), pooled+" "+"the bytes kept for the next Read live in "+shorten(exprOf(root))+": if that buffer is recycled another connection's frame overwrites them")
 		}
 		if n == 0 {
 			c.R.Undecided(rule, "Read:recvBuffer", c.P.Pos(f.F.Pos()), fname(f), "no store of the unread tail")
@@ -602,4 +603,393 @@ func shared(c *Ctx, from string, fns ...func(*Ctx)) {
 		f(c)
 	}
 	c.R.IDPrefix = old
+}
+
+// c12R12: a peer's answer to our +2/3 query corrects our picture of what it holds.  PickSendVote marks a
+// vote as delivered whether or not the send succeeded; the only path that offers a lost vote again is
+// ApplyVoteSetBitsMessage clearing, for the votes we hold, every bit the peer's answer does not
+// confirm: votes := (votes − ourVotes) ∪ msg.Votes.  Without the subtraction the bits only ever grow
+// and a peer that lost votes for the decided block is never served again.
+func c12R12(c *Ctx) {
+	rule := c.R.Rule("R12", "vote-set-bits answers can clear bits: in PeerState.ApplyVoteSetBitsMessage, when our own vote bit array is given, the value installed by votes.Update is Or(Sub(votes, ourVotes), msg.Votes) — the bits for votes we hold are replaced by the peer's answer, so a vote marked as sent but lost is offered again", 1)
+	f := c.Anchor(rule, "gemmill/consensus/pbft.(*PeerState).ApplyVoteSetBitsMessage")
+	if f == nil {
+		return
+	}
+	const ba = "gemmill/modules/go-common.(*BitArray)."
+	asCall := func(v ssa.Value, name string) *ssa.Call {
+		if cl, ok := v.(*ssa.Call); ok && cfgx.CalleeName(cl) == ba+name {
+			return cl
+		}
+		return nil
+	}
+	n, good := 0, 0
+	var at ssa.Instruction
+	for _, u := range f.CallsTo(cfgx.Named(ba + "Update")) {
+		uc := u.Common()
+		if len(uc.Args) != 2 {
+			continue
+		}
+		// the branch with our own votes present: not under (a2 == nil)
+		if f.HasGuard(u.(ssa.Instruction), cfgx.Equals("(a2 == nil)")) {
+			continue
+		}
+		n++
+		at = u.(ssa.Instruction)
+		or := asCall(uc.Args[1], "Or")
+		if or == nil {
+			continue
+		}
+		sub := asCall(or.Call.Args[0], "Sub")
+		other := or.Call.Args[1]
+		if sub == nil {
+			// Or is symmetric
+			sub = asCall(or.Call.Args[1], "Sub")
+			other = or.Call.Args[0]
+		}
+		if sub == nil {
+			continue
+		}
+		if sub.Call.Args[0] == uc.Args[0] && cfgx.Expr(sub.Call.Args[1]) == "a2" && cfgx.Expr(other) == "a1.Votes" {
+			good++
+		}
+	}
+	if n == 0 {
+		c.R.Undecided(rule, "merge-with-own-votes", c.P.Pos(f.F.Pos()), fname(f), "no votes.Update on the branch where our own votes are given")
+		return
+	}
+	c.R.Ob(rule, "merge=(votes−ours)∪answer", good == n, c.Pos(at), fname(f), "the peer's answer can only set bits in our picture of what it holds: a vote that was marked as sent but never arrived is not offered again, and a peer lacking +2/3 for the decided block never commits")
+}
+
+// c20R12: messages are handed to the reactors in arrival order and before their buffer is reused.
+// Channel.recvMsgPacket returns the channel's reassembly buffer and resets it with [:0]; the next
+// packet of the same channel overwrites it.  recvRoutine therefore has to finish onReceive before it
+// reads the next packet: a `go c.onReceive(...)` loses both the order and the content.
+func c20R12(c *Ctx) {
+	rule := c.R.Rule("R12", "in-order, unshared delivery: MConnection.recvRoutine invokes the connection's onReceive callback synchronously (a call, not a go statement, not deferred): the byte slice it passes is the channel's reassembly buffer, reused for the next message", 1)
+	f := c.Anchor(rule, "gemmill/p2p.(*MConnection).recvRoutine")
+	if f == nil {
+		return
+	}
+	n := 0
+	for _, ci := range f.Calls() {
+		cc := ci.Common()
+		if cc.IsInvoke() || cc.StaticCallee() != nil {
+			continue
+		}
+		if !strings.HasSuffix(cfgx.Expr(cc.Value), ".onReceive") {
+			continue
+		}
+		n++
+		_, isCall := ci.(*ssa.Call)
+		c.R.Ob(rule, "onReceive:synchronous", isCall, c.Pos(ci), fname(f), "the handler runs concurrently with the reading of the next packet: the reassembly buffer it was given is overwritten under it, and consecutive messages of a channel are handled out of order")
+	}
+	if n == 0 {
+		c.R.Undecided(rule, "onReceive", c.P.Pos(f.F.Pos()), fname(f), "no delivery to onReceive found in recvRoutine")
+	}
+}
+
+// c20R13: only a current *authority* vouches for a peer.  The CA filter accepts a certificate when
+// some validator's key verifies it; that validator must be marked IsCA on the path to the accepting
+// return.
+func c20R13(c *Ctx) {
+	rule := c.R.Rule("R13", "authority only: in the closure returned by authByCA every PubKey.VerifyBytes over the peer's certificate is edge-dominated by the candidate validator's IsCA flag being set", 1)
+	f := c.Anchor(rule, "gemmill.authByCA")
+	if f == nil {
+		return
+	}
+	n := 0
+	for _, an := range f.F.AnonFuncs {
+		af := c.Fn(an)
+		for _, ci := range af.Calls() {
+			if !strings.HasSuffix(cfgx.CalleeName(ci), ".VerifyBytes") {
+				continue
+			}
+			n++
+			ok := false
+			for _, g := range af.AllGuardForms(ci.(ssa.Instruction)) {
+				if strings.HasSuffix(g, ".IsCA") && !strings.HasPrefix(g, "!") {
+					ok = true
+				}
+			}
+			c.R.Ob(rule, "VerifyBytes⊣IsCA", ok, c.Pos(ci), fname(af), "a certificate signed by any validator (not only by a certificate authority) admits the peer; guards: "+shorten(guardsText(af, ci.(ssa.Instruction))))
+		}
+	}
+	if n == 0 {
+		c.R.Undecided(rule, "VerifyBytes", c.P.Pos(f.F.Pos()), fname(f), "the CA filter verifies no signature")
+	}
+}
+
+// c03R8: the watermark is read back from the very file save() writes.  WriteFileAtomic leaves other
+// files next to it (path.new while writing, path.bak = the version before the last write); a loader
+// that falls back to one of them restarts the signer with a watermark older than a signature it
+// already released.
+func c03R8(c *Ctx) {
+	rule := c.R.Rule("R8", "load what was saved: LoadPrivValidator passes its path argument unchanged to whatever reads the file (no string derived from the path — path+\".bak\", path+\".new\" — is handed to a callee), and the loaded validator's filePath is that same argument", 2)
+	f := c.Anchor(rule, "gemmill/types.LoadPrivValidator")
+	if f == nil {
+		return
+	}
+	reads, derived := 0, ""
+	var at ssa.Instruction
+	for _, ci := range f.Calls() {
+		for _, a := range ci.Common().Args {
+			if b, ok := a.Type().Underlying().(*types.Basic); !ok || b.Kind() != types.String {
+				continue
+			}
+			e := cfgx.Expr(a)
+			if e == "a0" {
+				reads++
+			} else if strings.Contains(e, "a0") && !strings.HasPrefix(cfgx.CalleeName(ci), "gemmill/modules/go-log.") && !strings.HasPrefix(cfgx.CalleeName(ci), "fmt.") && !strings.HasPrefix(cfgx.CalleeName(ci), "errors.") {
+				derived = e
+				at = ci.(ssa.Instruction)
+			}
+		}
+	}
+	pos := c.P.Pos(f.F.Pos())
+	if at != nil {
+		pos = c.Pos(at)
+	}
+	c.R.Ob(rule, "LoadPrivValidator:reads-only-its-path", reads >= 1 && derived == "", pos, fname(f), "the signer state is (also) read from "+derived+": a copy that is at least one write behind the file save() maintains, i.e. a watermark older than the last released signature")
+	okPath := false
+	for _, st := range f.Stores(func(a string) bool { return strings.HasSuffix(a, ".filePath") }) {
+		if cfgx.Expr(st.Val) == "a0" {
+			okPath = true
+		}
+	}
+	c.R.Ob(rule, "LoadPrivValidator:filePath=path", okPath, c.P.Pos(f.F.Pos()), fname(f), "the loaded validator persists to a different file than it was read from")
+}
+
+// c07R12: one marker per height.  The constructor's updateToState runs newStep, which logs the
+// NewHeight step — and with it a `#HEIGHT: h` marker — whenever a WAL is open.  The WAL is therefore
+// opened after it; OnStart writes the marker only when the search finds none.  A marker appended on
+// every restart lands, after a rotation, in the new head, where Group.Search finds it first and the
+// replay skips every record of the height that is in the rotated file.
+func c07R12(c *Ctx) {
+	rule := c.R.Rule("R12", "one marker per height: in NewConsensusState no updateToState (→ newStep → WAL.Save) is reachable after OpenWAL, so constructing the state machine never appends to the log; the start-up marker is written by OnStart only under `Search found nothing`", 2)
+	f := c.Anchor(rule, "gemmill/consensus/pbft.NewConsensusState")
+	if f == nil {
+		return
+	}
+	opens := f.CallsTo(cfgx.Named(csT + ".OpenWAL"))
+	ups := f.CallsTo(cfgx.Named(csT + ".updateToState"))
+	if len(ups) == 0 {
+		c.R.Undecided(rule, "NewConsensusState:updateToState", c.P.Pos(f.F.Pos()), fname(f), "the constructor no longer calls updateToState")
+		return
+	}
+	ok := true
+	var at ssa.Instruction = ups[0].(ssa.Instruction)
+	for _, o := range opens {
+		for _, u := range ups {
+			if f.Reaches(o.(ssa.Instruction), u.(ssa.Instruction)) {
+				ok = false
+				at = u.(ssa.Instruction)
+			}
+		}
+	}
+	c.R.Ob(rule, "NewConsensusState:no-step-logged-by-constructor", ok, c.Pos(at), fname(f), "updateToState runs with the WAL already open: every restart appends another `#HEIGHT: h` marker; after a rotation the newest one hides the records of the height in the rotated file from the replay")
+	if g := c.Anchor(rule, csT+".OnStart"); g != nil {
+		n, good := 0, 0
+		for _, s := range g.CallsTo(cfgx.Named(walT + ".Save")) {
+			n++
+			ok, _ := everyPath(g, s.(ssa.Instruction), func(gm map[string]bool) bool {
+				for k := range gm {
+					if !strings.Contains(k, ".Search(") {
+						continue
+					}
+					if strings.HasSuffix(k, "#2 == g:io.EOF)") && !strings.HasPrefix(k, "!") {
+						return true
+					}
+					if strings.HasPrefix(k, "!") && strings.HasSuffix(k, "#1") {
+						return true
+					}
+				}
+				return false
+			})
+			if ok {
+				good++
+			}
+		}
+		c.R.Ob(rule, "OnStart:marker-only-when-missing", n >= 1 && good == n, c.P.Pos(g.F.Pos()), fname(g), fmt.Sprintf("%d WAL.Save call(s) in OnStart, %d reached only when the marker search hit EOF or found nothing", n, good))
+	}
+}
+
+// c16R11: what a proposer pays is the set's total power.  IncrementAccum adds power*times to every
+// accum and then, `times` times, subtracts the total voting power from the current maximum: the sum
+// of the accums is conserved.  Any other subtrahend (e.g. the sum of the per-validator increments,
+// which is times*total) makes a batched IncrementAccum(k) differ from replicas that skipped the
+// rounds one by one.
+func c16R11(c *Ctx) {
+	rule := c.R.Rule("R11", "rotation arithmetic: in ValidatorSet.IncrementAccum every store to a validator's Accum is either Accum + VotingPower*times or Accum − TotalVotingPower() of the receiver", 2)
+	f := c.Anchor(rule, valsT+".IncrementAccum")
+	if f == nil {
+		return
+	}
+	strip := func(v ssa.Value) ssa.Value {
+		for {
+			switch x := v.(type) {
+			case *ssa.Convert:
+				v = x.X
+			case *ssa.ChangeType:
+				v = x.X
+			default:
+				return v
+			}
+		}
+	}
+	n := 0
+	for _, st := range f.Stores(func(a string) bool { return strings.HasSuffix(a, ".Accum") }) {
+		n++
+		bo, _ := strip(st.Val).(*ssa.BinOp)
+		if bo == nil {
+			c.R.Ob(rule, fmt.Sprintf("accum-store#%d", n), false, c.Pos(st), fname(f), "Accum is assigned "+shorten(exprOf(st.Val)))
+			continue
+		}
+		y := exprOf(strip(bo.Y))
+		switch bo.Op {
+		case token.ADD:
+			ok := false
+			if m, isM := strip(bo.Y).(*ssa.BinOp); isM && m.Op == token.MUL {
+				a, b := exprOf(strip(m.X)), exprOf(strip(m.Y))
+				ok = (strings.HasSuffix(a, ".VotingPower") && b == "a1") || (strings.HasSuffix(b, ".VotingPower") && a == "a1")
+			}
+			c.R.Ob(rule, "accum+=power*times", ok, c.Pos(st), fname(f), "the increment is "+shorten(y))
+		case token.SUB:
+			c.R.Ob(rule, "accum-=total-power", y == "gemmill/types.(*ValidatorSet).TotalVotingPower(a0)", c.Pos(st), fname(f), "the selected validator pays "+shorten(y)+" instead of the set's total voting power: the accum sum is not conserved and a batched IncrementAccum(k) diverges from k single steps")
+		default:
+			c.R.Ob(rule, fmt.Sprintf("accum-store#%d", n), false, c.Pos(st), fname(f), "Accum is assigned "+shorten(exprOf(st.Val)))
+		}
+	}
+	c.R.Ob(rule, "accum-stores", n == 2, c.P.Pos(f.F.Pos()), fname(f), fmt.Sprintf("%d stores to Accum", n))
+}
+
+// nilAfterErrorEdge walks forward from successor `k` of `iff` and reports a return whose error result
+// (last result) is the constant nil on some path from that edge; phis are resolved by the edge taken.
+func nilAfterErrorEdge(fn *ssa.Function, iff *ssa.If, k int) *ssa.Return {
+	type state struct {
+		blk, pred *ssa.BasicBlock
+		res       map[*ssa.Phi]ssa.Value
+	}
+	var found *ssa.Return
+	seen := map[[2]int]bool{}
+	var walk func(st state, depth int)
+	resolve := func(res map[*ssa.Phi]ssa.Value, v ssa.Value) ssa.Value {
+		for i := 0; i < 8; i++ {
+			ph, ok := v.(*ssa.Phi)
+			if !ok {
+				return v
+			}
+			r, ok := res[ph]
+			if !ok {
+				return v
+			}
+			v = r
+		}
+		return v
+	}
+	walk = func(st state, depth int) {
+		if found != nil || depth > 64 {
+			return
+		}
+		key := [2]int{st.blk.Index, st.pred.Index}
+		if seen[key] {
+			return
+		}
+		seen[key] = true
+		res := map[*ssa.Phi]ssa.Value{}
+		for k, v := range st.res {
+			res[k] = v
+		}
+		pi := -1
+		for i, p := range st.blk.Preds {
+			if p == st.pred {
+				pi = i
+			}
+		}
+		for _, ins := range st.blk.Instrs {
+			if ph, ok := ins.(*ssa.Phi); ok && pi >= 0 {
+				res[ph] = resolve(st.res, ph.Edges[pi])
+			}
+		}
+		if r, ok := st.blk.Instrs[len(st.blk.Instrs)-1].(*ssa.Return); ok && len(r.Results) > 0 {
+			v := resolve(res, r.Results[len(r.Results)-1])
+			if cst, isC := v.(*ssa.Const); isC && cst.IsNil() {
+				found = r
+			}
+			return
+		}
+		for _, s := range st.blk.Succs {
+			walk(state{s, st.blk, res}, depth+1)
+		}
+	}
+	walk(state{iff.Block().Succs[k], iff.Block(), map[*ssa.Phi]ssa.Value{}}, 0)
+	return found
+}
+
+// c19R9: a transaction that was not queued is reported as such.  txSortedMap.Add refuses a second
+// transaction for a nonce it already holds; addWaiting must hand that error to its caller — a nil
+// return makes receiveTx keep the transaction in tp.all (and gossip it) although no queue holds it:
+// it is never offered, never removed, and counts against the pool size for ever.
+func c19R9(c *Ctx) {
+	rule := c.R.Rule("R9", "a refused insertion is reported: in ethTxPool.addWaiting no path from the failing edge of txSortedMap.Add (error != nil) reaches a return whose error is nil, and the same holds for the failing edge of TryReplace when the waiting queue is full", 2)
+	f := c.Anchor(rule, "chain/app/evm.(*ethTxPool).addWaiting")
+	if f == nil {
+		return
+	}
+	n := 0
+	for _, b := range f.F.Blocks {
+		iff, ok := b.Instrs[len(b.Instrs)-1].(*ssa.If)
+		if !ok {
+			continue
+		}
+		// err != nil / err == nil over the result of Add
+		if bo, ok := iff.Cond.(*ssa.BinOp); ok && (bo.Op == token.NEQ || bo.Op == token.EQL) {
+			var cl *ssa.Call
+			if x, ok := bo.X.(*ssa.Call); ok && cfgx.IsNilConst(bo.Y) {
+				cl = x
+			} else if y, ok := bo.Y.(*ssa.Call); ok && cfgx.IsNilConst(bo.X) {
+				cl = y
+			}
+			if cl != nil && cfgx.CalleeName(cl) == "chain/app/evm.(*txSortedMap).Add" {
+				n++
+				k := 0
+				if bo.Op == token.EQL {
+					k = 1
+				}
+				r := nilAfterErrorEdge(f.F, iff, k)
+				pos := c.Pos(cl)
+				if r != nil {
+					pos = c.Pos(r)
+				}
+				c.R.Ob(rule, "addWaiting:Add-error-reported", r == nil, pos, fname(f), "the error of txSortedMap.Add (nonce already queued) is lost: the caller keeps a transaction that is in no queue")
+			}
+		}
+		// the full-queue branch: !TryReplace(tx) → error
+		var tr *ssa.Call
+		neg := false
+		switch x := iff.Cond.(type) {
+		case *ssa.Call:
+			tr = x
+		case *ssa.UnOp:
+			if x.Op == token.NOT {
+				if cl, ok := x.X.(*ssa.Call); ok {
+					tr, neg = cl, true
+				}
+			}
+		}
+		if tr != nil && cfgx.CalleeName(tr) == "chain/app/evm.(*txSortedMap).TryReplace" {
+			n++
+			k := 1 // false edge of `TryReplace(tx)` = not replaced
+			if neg {
+				k = 0
+			}
+			r := nilAfterErrorEdge(f.F, iff, k)
+			pos := c.Pos(tr)
+			if r != nil {
+				pos = c.Pos(r)
+			}
+			c.R.Ob(rule, "addWaiting:queue-full-reported", r == nil, pos, fname(f), "a transaction that found the waiting queue full and replaced nothing is reported as accepted")
+		}
+	}
+	c.R.Ob(rule, "addWaiting:refusal-edges", n >= 2, c.P.Pos(f.F.Pos()), fname(f), fmt.Sprintf("%d refusal edges found (Add error, TryReplace false)", n))
 }
